@@ -1260,8 +1260,9 @@ func (s *Session) note(msg *ClientComMessage) {
 			return
 		}
 	case "call":
-		if types.GetTopicCat(msg.RcptTo) != types.TopicCatP2P {
-			// Calls are only available in P2P topics.
+		if !strings.HasPrefix(msg.RcptTo, "p2p") {
+			// Calls are only available in P2P topics. The name is not validated yet:
+			// do not use types.GetTopicCat here, it panics on short or unknown names.
 			return
 		}
 		fallthrough
